@@ -192,6 +192,13 @@ C03_NamedBodies ==
      \cup {<<La, NLoop(q[1], q[2], FALSE, Grp(<<NLoop(0, -1, FALSE, Cap("x", Lb), "inner"), La>>), "outer")>> : q \in Qn}
      \cup {<<NLoop(1, -1, FALSE, Grp(<<Cap("k", Grp(<<Loop(1, -1, FALSE, NotLit(<<sp>>))>>)), Loop(0, 1, FALSE, Lit(<<sp>>))>>), "words")>>}
 
+(* whole file / line / word at the positions where a file, line, word starts *)
+C03_WholeBodies ==
+  { <<Whole(c)>> : c \in {"file", "line", "word"} } \cup { <<[k |-> "whole", c |-> c, neg |-> TRUE], Cls("any")>> : c \in {"file", "line", "word"} }
+    \cup { <<Whole("word"), Loop(0, 1, FALSE, Lit(<<sp>>)), Whole("word")>>, <<Cap("w", Whole("word"))>>, <<Whole("line"), Lit(<<nl>>), Whole("line")>>,
+           <<Anc("linestart"), Whole("word"), Anc("wordend")>>, <<Loop(1, -1, FALSE, Grp(<<Whole("word"), Lit(<<sp>>)>>))>>,
+           <<Lit(<<sp>>), Whole("word")>>, <<Anc("filestart"), Whole("file"), Anc("fileend")>> }
+
 (* ===================================================================== C04 *)
 C04_BodiesQ == { <<Lit(<<ba, ba>>)>>, <<Loop(1, -1, FALSE, La)>>, <<La, Loop(0, 1, FALSE, La)>>,
                  <<Or(Lab, La)>>, <<La>>, <<Cls("any")>>, <<Loop(1, 2, TRUE, Cls("any"))>>,
